@@ -115,15 +115,16 @@ ETimeout == /\ Eager /\ s.live /\ s.tmr = "armed"
             /\ LET r == Run([s EXCEPT !.tmr = "fired", !.woken = s.tmrW]) IN
                /\ s' = r[1] /\ steps' = Append(steps, [a |-> "timeout", b |-> <<>>, ev |-> Evs(r[2], 0), cols |-> 0, rows |-> 0])
             /\ UNCHANGED <<inq, nfeed, nwinch, ndrop>>
-EWinch == /\ Eager /\ s.live /\ s.rszW /\ nwinch < MaxWinch /\ nwinch' = nwinch + 1
+\* (no resize, second stream or drop while the escape timer runs: the replay cannot order them against real time)
+EWinch == /\ Eager /\ s.live /\ s.rszW /\ s.tmr # "armed" /\ nwinch < MaxWinch /\ nwinch' = nwinch + 1
           /\ LET r == Run([s EXCEPT !.rsz = TRUE, !.rszW = FALSE, !.woken = TRUE]) IN
              /\ s' = r[1]
              /\ steps' = Append(steps, [a |-> "winch", b |-> <<>>, ev |-> Evs(r[2], nwinch'), cols |-> 80 + nwinch', rows |-> 24 + nwinch'])
           /\ UNCHANGED <<inq, nfeed, ndrop>>
-ESecond == /\ Eager /\ s.live /\ Len(steps) > 0 /\ steps[Len(steps)].a # "new"
+ESecond == /\ Eager /\ s.live /\ s.tmr # "armed" /\ Len(steps) > 0 /\ steps[Len(steps)].a # "new"
            /\ steps' = Append(steps, [a |-> "new", b |-> <<>>, ev |-> <<[t |-> "err", e |-> "AlreadyExists"]>>, cols |-> 0, rows |-> 0])
            /\ UNCHANGED <<s, inq, nfeed, nwinch, ndrop>>
-EDrop == /\ Eager /\ s.live /\ ndrop < MaxDrop /\ ndrop' = ndrop + 1
+EDrop == /\ Eager /\ s.live /\ s.tmr # "armed" /\ ndrop < MaxDrop /\ ndrop' = ndrop + 1
          /\ s' = [Fresh EXCEPT !.live = FALSE]
          /\ steps' = Append(steps, [a |-> "drop", b |-> <<>>, ev |-> <<>>, cols |-> 0, rows |-> 0])
          /\ UNCHANGED <<inq, nfeed, nwinch>>
@@ -161,5 +162,6 @@ EscResolves == (s.live /\ s.pbuf = "esc") ~> (~s.live \/ s.pbuf # "esc")
 ResizeReported == (s.live /\ s.rsz) ~> (~s.live \/ ~s.rsz)
 
 Emit == (Eager /\ nfeed = MaxFeed /\ Len(steps) > 1) => PrintT(<<"REPLAY", ToJson([k |-> "stream", raw |-> TRUE, steps |-> steps])>>)
-View == <<s, inq, nfeed, nwinch, ndrop>>
+\* one printed path for every distinct state and kind of the step that led to it
+View == <<s, inq, nfeed, nwinch, ndrop, IF steps = <<>> THEN "" ELSE steps[Len(steps)].a>>
 =============================================================================
